@@ -87,7 +87,7 @@ def run_property(pid, tier, jobs=None, only=None):
     results.sort(key=lambda r: (r[1].fn, json.dumps(r[1].cell, sort_keys=True), r[0], r[2] or ''))
 
     known = [k for k in load_known() if k.get('property') == pid]
-    violations, harness_errors, inconclusive, known_lines = [], [], [], []
+    violations, harness_errors, inconclusive, known_lines, notes = [], [], [], [], []
     per_ob, samples = [], []
     n_ob = n_dis = 0
     os.makedirs(REPLAYS, exist_ok=True)
@@ -105,8 +105,14 @@ def run_property(pid, tier, jobs=None, only=None):
                 entry['status'] = 'reached'
                 if len(samples) < 6 and res.get('args') is not None:
                     samples.append({'reaches': tw, 'harness': o.fn, 'cell': o.cell, 'args': res['args']})
-            else:
+            elif st in ('confirmed', 'pre_unsat'):
+                # the negated oracle holds on ALL paths: the witnessed branch is unreachable -> the harness is vacuous there
                 harness_errors.append(f'vacuity twin not refuted ({st}): {label}: {res.get("message", "")[:300]}')
+            elif st == 'harness_error':
+                harness_errors.append(f'vacuity twin failed ({st}): {label}: {res.get("message", "")[:300]}')
+            else:
+                entry['status'] = 'twin_inconclusive'      # not found within its budget: reported, not an error
+                notes.append(f'twin inconclusive (witness not found within the budget): {label}')
             per_ob.append(entry)
             continue
         n_ob += 1
@@ -133,6 +139,9 @@ def run_property(pid, tier, jobs=None, only=None):
                 inconclusive.append(label)
             per_ob.append(entry)
             continue
+        if res.get('realizations', 0) and st in ('confirmed', 'inconclusive'):
+            notes.append(f'{res["realizations"]} realisations of symbolic values (C boundary) in {label}: exhaustion still means all '
+                         f'branches were explored, but unbounded values are enumerated there')
         if st == 'confirmed':
             n_dis += 1
         elif st == 'counterexample':
@@ -192,6 +201,8 @@ def run_property(pid, tier, jobs=None, only=None):
           f'paths={evaluations} nontrivial={nontrivial} wall={wall:.0f}s')
     for lbl in inconclusive:
         print(f'INCONCLUSIVE (bounded evidence only, not a pass): {lbl}')
+    for n in notes:
+        print(f'NOTE {n}')
     for label, path in violations:
         print(f'VIOLATION property={pid} replay={path}')
     for h in harness_errors:
